@@ -186,8 +186,13 @@ func (h *c06Filter) step(st *c06Step) c06Obs {
 	shown := h.cliOut.From(c0)
 	spawned := f.trigger != prev // steering only: tells the harness whether to wait for the handler
 	if spawned {
-		if !c06WaitUntil(20*time.Second, func() bool { a, fl, _ := c06ProtoLines(h.srvIn.From(s0)); return a+fl > 0 }) {
-			o.Timeout = "handler started but no #ACT:/#fail: line within 20s"
+		// time to the first protocol line is bounded by the code's own constants: 50 ms (chooseDownloadPath)
+		// + 1 s (connectToTunnel gives up) + 100 ms (cleanInput before #fail:); 6 s is 5x that.  A handler
+		// that wrote nothing by then and holds no transfer is recorded as what it is: no transfer started.
+		if !c06WaitUntil(6*time.Second, func() bool { a, fl, _ := c06ProtoLines(h.srvIn.From(s0)); return a+fl > 0 }) {
+			if f.IsTransferringFiles() {
+				o.Timeout = "handler holds a transfer but wrote no #ACT:/#fail: line within 6s"
+			}
 		}
 		acts, _, _ := c06ProtoLines(h.srvIn.From(s0))
 		if acts > 0 {
